@@ -740,6 +740,22 @@ func ruleCommitMarksWindow(c *Ctx, r *Report) {
 				}
 				return cv == ssa.Value(fv)
 			}
+			// what the commit function reports ("this was the newest record of its epoch": the
+			// condition for a path challenge / address switch) is the detector's own answer
+			reportsAccept := true
+			for _, lb := range lit.Blocks {
+				lret, isRet := lb.Instrs[len(lb.Instrs)-1].(*ssa.Return)
+				if !isRet || len(lret.Results) != 1 {
+					continue
+				}
+				if !allLeaves(c.Origins(unspill(lret.Results[0]), 0), func(v ssa.Value) bool {
+					cl, isCall := v.(*ssa.Call)
+					return isCall && isAcceptCall(cl)
+				}) {
+					reportsAccept = false
+				}
+			}
+			r.Check(reportsAccept, "commit-reports-latest", key, c.ipos(ret), "the commit function returns what the detector's accept function returned", "the commit function's result is not the detector's answer: every accepted record is reported as (or never as) the newest one, which is what gates path challenges and the switch of the peer address")
 			w := &Walk{Fn: lit, Visit: func(in ssa.Instruction, _ Env) bool { return !isAcceptCall(in) }}
 			w.FromEntry()
 			r.Check(len(w.Returns) == 0, rule, key, c.ipos(ret), "every path of the commit function marks the sequence number in the detector", "the commit function can return without calling the detector's accept function: a record delivered on that path is not marked as received and every duplicate of it inside the window is delivered again")
